@@ -13,6 +13,7 @@ import (
 	"errors"
 	"fmt"
 	"os"
+	"path"
 	"sort"
 	"strings"
 	"testing"
@@ -106,13 +107,17 @@ func c12OwnerOf(rawKey string) c12Owner {
 	return c12Owner{Root: "?", Kind: "?", Task: k}
 }
 
+// c12SameRoot: a root path names a tenant up to its spelling ("r/" and "r" are one configuration value apart, the keys
+// are the same)
+func c12SameRoot(a, b string) bool { return path.Clean(a) == path.Clean(b) }
+
 type c12Op struct {
-	Kind string `json:"k"` // putTask | updPos | markDropped | delTask | setState | putMsg | rmMsg
-	Root string `json:"r"`
-	Task string `json:"t"`
-	Coll int64  `json:"c,omitempty"`
-	Chan string `json:"ch,omitempty"`
-	Fault int   `json:"f,omitempty"`
+	Kind  string `json:"k"` // putTask | updPos | markDropped | delTask | setState | putMsg | rmMsg
+	Root  string `json:"r"`
+	Task  string `json:"t"`
+	Coll  int64  `json:"c,omitempty"`
+	Chan  string `json:"ch,omitempty"`
+	Fault int    `json:"f,omitempty"`
 }
 
 func (o c12Op) String() string {
@@ -199,7 +204,7 @@ func c12Reads(b *c12Backend, roots, tasks []string) (string, string) {
 				continue // the etcd reload lists every key under the root; records that are no task messages carry no type and are ignored by Reload
 			}
 			nMsg++
-			if len(m.Base.TargetChannels) == 0 || m.Base.TargetChannels[0] != r {
+			if len(m.Base.TargetChannels) == 0 || !c12SameRoot(m.Base.TargetChannels[0], r) {
 				return "", fmt.Sprintf("%s: task-msg reload under root %q returned message %s/%s written under %v", c12ForeignTag(b.kind, "msgs", r), r, m.Base.TaskID, m.Base.MsgID, m.Base.TargetChannels)
 			}
 		}
@@ -267,7 +272,7 @@ func c12Exec(kind string, roots, tasks []string, hist []c12Op) *c12Result {
 		}
 		for k := range changed {
 			o := c12OwnerOf(k)
-			okOwner := o.Root == op.Root && o.Task == op.Task
+			okOwner := c12SameRoot(o.Root, op.Root) && o.Task == op.Task
 			switch op.Kind {
 			case "putTask", "setState":
 				okOwner = okOwner && o.Kind == "task_info"
@@ -280,7 +285,7 @@ func c12Exec(kind string, roots, tasks []string, hist []c12Op) *c12Result {
 			}
 			if !okOwner {
 				tag := "interference"
-				if o.Root != op.Root {
+				if !c12SameRoot(o.Root, op.Root) {
 					tag = "cross-root"
 				} else if o.Task != op.Task {
 					tag = "cross-task"
@@ -305,7 +310,7 @@ func c12Exec(kind string, roots, tasks []string, hist []c12Op) *c12Result {
 			infoGone, posGone, infoWas, posWas := true, true, false, false
 			for k := range before {
 				o := c12OwnerOf(k)
-				if o.Root == op.Root && o.Task == op.Task {
+				if c12SameRoot(o.Root, op.Root) && o.Task == op.Task {
 					_, still := after[k]
 					if o.Kind == "task_info" {
 						infoWas = true
@@ -329,7 +334,7 @@ func c12Exec(kind string, roots, tasks []string, hist []c12Op) *c12Result {
 			nLeft := 0
 			for k := range after {
 				o := c12OwnerOf(k)
-				if o.Root == op.Root && o.Task == op.Task && o.Kind == "task_position" {
+				if c12SameRoot(o.Root, op.Root) && o.Task == op.Task && o.Kind == "task_position" {
 					nLeft++
 				}
 			}
@@ -489,6 +494,18 @@ func c12Families(thorough bool) []c12Family {
 		}
 		fams = append(fams, f)
 	}
+	// root paths that are not in canonical form (a trailing or a doubled separator in the configuration): every key and
+	// every scan prefix of a tenant must agree on one spelling
+	{
+		f := c12Family{Name: "root-spelling", Roots: []string{"r/", "q//x", "/s"}, Tasks: []string{"t1"}}
+		for _, r := range f.Roots {
+			f.Ops = append(f.Ops,
+				c12Op{Kind: "putTask", Root: r, Task: "t1"}, c12Op{Kind: "delTask", Root: r, Task: "t1"},
+				c12Op{Kind: "updPos", Root: r, Task: "t1", Coll: 1, Chan: "c"}, c12Op{Kind: "updPos", Root: r, Task: "t1", Coll: 1, Chan: "c2"}, c12Op{Kind: "markDropped", Root: r, Task: "t1", Coll: 1},
+				c12Op{Kind: "delPos", Root: r, Task: "t1", Coll: 1}, c12Op{Kind: "putMsg", Root: r, Task: "t1"}, c12Op{Kind: "rmMsg", Root: r, Task: "t1"})
+		}
+		fams = append(fams, f)
+	}
 	// task deletion with a failure injected at every backend round trip
 	{
 		f := c12Family{Name: "delete-faults", Roots: []string{"r"}, Tasks: []string{"t1", "t10"}}
@@ -509,9 +526,9 @@ func TestVerifC12Isolation(t *testing.T) {
 	if p := os.Getenv("VERIF_REPLAY"); p != "" {
 		var f struct {
 			Replay struct {
-				Backend string   `json:"backend"`
-				Family  string   `json:"family"`
-				History []c12Op  `json:"history"`
+				Backend string  `json:"backend"`
+				Family  string  `json:"family"`
+				History []c12Op `json:"history"`
 			} `json:"replay"`
 		}
 		b, _ := os.ReadFile(p)
@@ -536,7 +553,7 @@ func TestVerifC12Isolation(t *testing.T) {
 		depth = 5
 	}
 	res.Bounds["depth"] = depth
-	res.Rule = "BFS over operation histories through the real meta_op.go functions (put task, guarded state update, update checkpoint of one channel, mark collection dropped, delete task, put / remove task message) on the real etcd stores over fakeetcd and the real MySQL stores over fakesql; families: prefix-sharing ids (tasks t1/t10, collections 1/10/-10, channels c/c2) under one root; task ids with SQL pattern characters (t_1 / tx1 / t% / t%2); four tenants (roots r, r2, r_, rX) with equal ids on one backend; task deletion with a failure at each backend round trip; after every operation the full backend dump is diffed against the dump before: only records of the addressed (root, task[, collection]) may change, inside a checkpoint record only the addressed channel, dropped entries never, deletion all-or-nothing; reads (get, list, positions, task-message reload) return only records written under the same root and task; states deduplicated on the dump with stamps removed; non-trivial = histories with a fault or touching >= 2 records"
+	res.Rule = "BFS over operation histories through the real meta_op.go functions (put task, guarded state update, update checkpoint of one channel, mark collection dropped, delete task, put / remove task message) on the real etcd stores over fakeetcd and the real MySQL stores over fakesql; families: prefix-sharing ids (tasks t1/t10, collections 1/10/-10, channels c/c2) under one root; task ids with SQL pattern characters (t_1 / tx1 / t% / t%2); four tenants (roots r, r2, r_, rX) with equal ids on one backend; root paths that are not in canonical form (r/, q//x, /s); task deletion with a failure at each backend round trip; after every operation the full backend dump is diffed against the dump before: only records of the addressed (root, task[, collection]) may change, inside a checkpoint record only the addressed channel, dropped entries never, deletion all-or-nothing; reads (get, list, positions, task-message reload) return only records written under the same root and task; states deduplicated on the dump with stamps removed; non-trivial = histories with a fault or touching >= 2 records"
 	deadline := time.Now().Add(ev.Budget(150 * time.Second))
 	idx := 0
 	for _, backend := range []string{"etcd", "mysql"} {
